@@ -432,7 +432,8 @@ fn case_first_use(t: &mut Tape, info: &mut CaseInfo) -> Result<(), String> {
                             std::hint::spin_loop();
                             spins += 1;
                         }
-                        out.push(run_job(w, &w.maps[job.map], job));
+                        // a panicking job must not leave the other threads waiting at the next barrier
+                        out.push(std::panic::catch_unwind(std::panic::AssertUnwindSafe(|| run_job(w, &w.maps[job.map], job))).unwrap_or_else(|_| "panicked".into()));
                     }
                     out
                 })
